@@ -57,9 +57,39 @@ def outcome(f, *a):
     return ("exc", tl.exc_name(r)) if k == "exc" else ("ok", snapshot(r))
 
 
+def member_texts(spec):
+    """every spelling of the Literal values / Enum member values that occur in `spec`: the texts for which
+    'the text itself' and 'what the text decodes to' may both be members"""
+    out = []
+
+    def walk(x):
+        if isinstance(x, dict):
+            vals = x.get("values", []) if x.get("k") == "literal" else [m[1] for m in x.get("members", [])] if x.get("k") == "enum" else []
+            for v in vals:
+                if isinstance(v, (bytes, bytearray)):
+                    continue
+                out.append(v if isinstance(v, str) else str(v))
+                out.append(repr(v))
+                try:
+                    out.append(json.dumps(v))
+                except Exception:
+                    pass
+            for y in x.values():
+                walk(y)
+        elif isinstance(x, list):
+            for y in x:
+                walk(y)
+
+    walk(spec)
+    return sorted(set(out))
+
+
 def strings_for(p, vs):
     alts = [st.sampled_from(TEXTS), st.sampled_from(LONG), exotic_padded(),
             st.text(alphabet=st.characters(exclude_categories=["Cs"]), max_size=12)]
+    mt = member_texts(p.spec)
+    if mt:
+        alts += [st.sampled_from(mt)] * 2
     if vs is not None:
         def render(v, form):
             try:
@@ -277,6 +307,9 @@ def plan(tier, seed):
     depth = 3 if tier == "quick" else 5
     shards = [{"kind": "progs", "seed": seed * 1000 + k, "n": n, "depth": depth} for k in range(12)]
     shards += [{"kind": "direct", "seed": seed * 1000 + 50 + k, "n": 2500 if tier == "quick" else 60000} for k in range(4)]
+    # shallow annotations (Literal / Enum / scalar unions at or just below the root): many more programs per second,
+    # and the place where a text and the value it decodes to can both be acceptable
+    shards += [{"kind": "progs", "seed": seed * 1000 + 80 + k, "n": 400 if tier == "quick" else 8000, "depth": 1} for k in range(4)]
     return shards
 
 
